@@ -567,8 +567,15 @@ def jacobian(ctx, rng, idx):
     ctx.close("jacobian", worst, 2e-4, jkey, {"model": s.mname, "recon": s.rname, "cell size ratio": float(np.max(vol_) / np.min(vol_))}, cls="jacobian")
     if s.bckind == "per":
         vol = s.mesh.vol()
+        epsm = float(np.finfo(float).eps)
+        dstep = [float(np.sqrt(epsm) * (np.sum(np.abs(d_)) / d_.size or 1.0)) for d_ in s.field.data]      # the library's own difference steps
         for q in range(neq):
             colsum = vol @ J[q::neq, :]
             sc = np.max(np.abs(J[q::neq, :])) * np.max(vol) * n + 1e-300
-            ctx.close("jacobian-conservative", np.max(np.abs(colsum)) / sc, 1e-4, "jacobian/columns-not-conservative", {"eq": q}, cls="jacobian-conservative")
+            # round-off of the one-sided difference: the residual of equation q is made of terms of size sum_p |dR_q/dQ_p| |Q_p|, known to
+            # eps relative, and divided by a step sqrt(eps) mean|Q_p'| -- when a variable is tiny next to the others (momentum of a
+            # nearly resting layer: Froude 1e-3 in units of 1e-10) that step is far below the round-off of the pressure term (thorough-tier witness)
+            terms = sum(float(np.max(np.abs(J[q::neq, p_::neq]))) * float(np.max(np.abs(s.field.data[p_]))) for p_ in range(neq))
+            noise = max(epsm * terms / d_ for d_ in dstep) * float(np.max(vol)) * n
+            ctx.close("jacobian-conservative", np.max(np.abs(colsum)) / sc, 1e-4 + noise / sc, "jacobian/columns-not-conservative", {"eq": q, "difference-quotient round-off allowed": noise / sc}, cls="jacobian-conservative")
     ctx.nontrivial("jac", iname, s.desc())
